@@ -268,6 +268,48 @@ def check(run):
                     else:
                         ok = res.kind == 'ProofError'
                         run.check(ok, 'D3', 'check_account_proof[rejecting path]' if not ok else f'{tag}|reject[{desc[:40]}]', f'{tag}: raises {res.kind} {str(res.what)[:60]}', w3)
+    # the queried account is not among the leaves the proof shows (e.g. its dictionary branch was pruned): nothing may be accepted,
+    # whatever is claimed - an accepting path there has compared the claim with no committed hash at all
+    for claim_kind in ('empty cell', 'None', 'ordinary'):
+        def one(orc, claim_kind=claim_kind):
+            it = mk(prog)
+            it.oracle = orc
+            ST = sym32('STATE_FROM_HEADER')
+            upd = merkle_update(it, 'upd', ordinary(it, 'old'), pruned(it, 'new', ST))
+            blk_root = ordinary(it, 'blkroot', [ordinary(it, 'info'), ordinary(it, 'vflow'), upd, ordinary(it, 'extra')])
+            p0 = merkle_proof(it, 'p0', sym32('D0'), blk_root)
+            state_root = ordinary(it, 'stateroot', [pruned(it, 'accounts-branch', sym32('PRUNED_DICT'))])
+            p1 = merkle_proof(it, 'p1', sym32('D1'), state_root)
+            other = Inst(prog.cls('ShardAccount'))
+            other.attrs.update(cell=ordinary(it, 'othersa', [ordinary(it, 'otheracc')]), account=K(None), last_trans_hash=sym32('LTH'), last_trans_lt=K(5))
+            accounts = DictV({12345: other})
+            accounts.keyobj = {12345: K(12345)}
+            shard = Inst(prog.cls('ShardStateUnsplit'))
+            shard.attrs['accounts'] = ListV([accounts, ListV([])], tup=True)
+
+            def summary(f, args, kw):
+                if f.name == 'from_boc' and f.cls is not None and f.cls.name == 'Cell':
+                    return ListV([p0, p1])
+                if f.name == 'deserialize' and f.cls is not None and f.cls.name == 'ShardStateUnsplit':
+                    return shard
+                return None
+            it.summary_hook = summary
+            addr = Inst(prog.cls('Address'))
+            addr.attrs.update(wc=K(0), hash_part=K(bytes(range(32))))
+            blk = Inst(prog.cls('BlockIdExt'))
+            blk.attrs.update(root_hash=sym32('BLOCKHASH'), file_hash=sym32('FH'), workchain=K(0), shard=K(1 << 63), seqno=K(9))
+            claim = {'empty cell': lambda: it.call(it.getattr(prog.cls('Cell'), 'empty'), [], {}), 'None': lambda: K(None),
+                     'ordinary': lambda: cm.new_cell(it, cm.tvm_bits(it, BA([Seg(8, 'k', '11110000')])), [])}[claim_kind]()
+            try:
+                it.invoke(f_acc, [K(b'proof-bytes'), blk, addr, claim, K(False)], {})
+                return 'accept'
+            except RaiseEx as e:
+                return e.kind
+        outs = [o for o, _ in run_paths(one, 256)]
+        run.evaluations += len(outs)
+        ok = 'accept' not in outs
+        run.check(ok, 'D3', 'check_account_proof[account not shown by the proof]' if not ok else f'absent account, claim={claim_kind}',
+                  f'account absent from the parsed dictionary, claimed state {claim_kind}: outcomes {sorted(set(outs))} (no path may accept)', w3)
     # ------------------------------------------------------------------ D4 shard proof front part (until block parsing)
     def blkid(it, wc, seqno, rh):
         b = Inst(prog.cls('BlockIdExt'))
